@@ -89,6 +89,15 @@ def run(ctx, rep):
     di = [i for i, fd in enumerate(adt["variants"][0]["fields"]) if fd["name"] == "data"][0]
     data = T.proj(T.deref(p1), ("f", di, "data"))
     tail = T.payload(T.call("[T]::get", ("u8", "ops::RangeFrom<usize>"), [data, T.agg("adt", "ops::RangeFrom", 0, "RangeFrom", [p2])]), "Some")
+    def as_tail(x):
+        """`data.split_at(offset).1` is the same tail as `data.get(offset..)` where it exists (its precondition offset <= len is the
+        panic census's obligation, C01)"""
+        if x.op == "proj" and x.args[1][:2] == ("f", 1) and x.args[0].op == "call" and x.args[0].args[0] == "[T]::split_at":
+            s_, o_ = x.args[0].args[2]
+            s_ = s_.args[0] if s_.op == "refval" else s_
+            if s_ is data and o_ is p2:
+                return tail
+        return x
     n_ok = 0
     kinds = set()
     if len(an.loops) == 1:
@@ -128,10 +137,11 @@ def run(ctx, rep):
                 rep.bad("strtab", "get_raw:value", w, "UNRECOGNISED: get_raw returns %s (not a prefix cut of the tail at the search result)" % pp(v)[:240])
                 continue
             cut_of = cut_of.args[0] if cut_of.op == "refval" else cut_of
+            cut_of = as_tail(cut_of)
             rep.require(cut_of is tail, "strtab", "get_raw:tail", w, "the string starts at the unmodified offset: data.get(offset..)",
                         "get_raw cuts %s, expected the tail data.get(offset..) with the caller's offset" % pp(cut_of)[:200])
             good = (pos.op == "payload" and pos.args[1] == "Some" and pos.args[0].op == "call" and pos.args[0].args[0] == "slice::position"
-                    and pos.args[0].args[2][0] is tail)
+                    and as_tail(pos.args[0].args[2][0]) is tail)
             rep.require(good, "strtab", "get_raw:search", w, "cut point = position of the first match in the tail, used without arithmetic",
                         "get_raw cuts at %s: not the unmodified result of a first-match search over the tail (rposition / +1 / other arithmetic change the string)"
                         % pp(pos)[:200])
